@@ -1,12 +1,12 @@
 package specmatch
 
 import (
-	"sort"
 	"fmt"
 	"go/ast"
 	"go/constant"
 	"go/token"
 	"go/types"
+	"sort"
 	"strings"
 
 	"golang.org/x/tools/go/types/typeutil"
@@ -211,13 +211,13 @@ func (r *rec) boolExpr(e ast.Expr) []string {
 	if be, ok := e.(*ast.BinaryExpr); ok {
 		switch be.Op {
 		case token.LAND:
-			return append(append(r.boolExpr(be.X), "/\\"), r.boolExpr(be.Y)...)
+			return group(r.boolExpr(be.X), []string{"/\\"}, r.boolExpr(be.Y))
 		case token.LOR:
 			// a => b is emitted as !a || b
 			if u, ok := unparen(be.X).(*ast.UnaryExpr); ok && u.Op == token.NOT {
-				return append(append(r.boolExpr(u.X), "=>"), r.boolExpr(be.Y)...)
+				return group(r.boolExpr(u.X), []string{"=>"}, r.boolExpr(be.Y))
 			}
-			return append(append(r.boolExpr(be.X), "\\/"), r.boolExpr(be.Y)...)
+			return group(r.boolExpr(be.X), []string{"\\/"}, r.boolExpr(be.Y))
 		}
 	}
 	r.bad(e, "unrecognised boolean expression %s", types.ExprString(e))
@@ -322,6 +322,14 @@ func (r *rec) sliceElems(e ast.Expr) []ast.Expr {
 	return cl.Elts
 }
 
+// callForm renders an operator call: name ( a , b ); a nullary operator is just its name.
+func callForm(name string, args [][]string) []string {
+	if len(args) == 0 {
+		return []string{name}
+	}
+	return append(append([]string{name, "("}, join(args, ",")...), ")")
+}
+
 func join(parts [][]string, sep string) []string {
 	var out []string
 	for i, p := range parts {
@@ -421,18 +429,13 @@ func (r *rec) call(x *ast.CallExpr) []string {
 		if !ok {
 			r.bad(x, "GetConstant with non-literal name")
 		}
-		out := []string{r.canon.Ident(name)}
-		if len(x.Args) > 0 {
-			out = append(out, join(r.exprs(x.Args), ",")...)
-		}
-		return out
+		return callForm(r.canon.Ident(name), r.exprs(x.Args))
 	}
 	f := r.callee(x)
 	if f == nil {
 		// call through a local function value (LET-defined operator or operator parameter)
 		if id, ok := unparen(x.Fun).(*ast.Ident); ok {
-			out := []string{r.canon.Ident(id.Name)}
-			return append(out, join(r.exprs(x.Args), ",")...)
+			return callForm(r.canon.Ident(id.Name), r.exprs(x.Args))
 		}
 		r.bad(x, "unresolved call %s", types.ExprString(x.Fun))
 	}
@@ -506,7 +509,7 @@ func (r *rec) call(x *ast.CallExpr) []string {
 			out = append(out, "->")
 			return append(append(out, r.expr(x.Args[1])...), "]")
 		case "CrossProduct":
-			return join(r.exprs(x.Args), "\\X")
+			return group(join(r.exprs(x.Args), "\\X"))
 		case "QuantifiedUniversal":
 			return r.quantifier("\\A", x, true)
 		case "QuantifiedExistential":
@@ -599,21 +602,20 @@ func (r *rec) call(x *ast.CallExpr) []string {
 			if rep, ok := r.symRepr[op]; ok {
 				switch {
 				case len(x.Args) == 2:
-					return append(append(r.expr(x.Args[0]), rep), r.expr(x.Args[1])...)
+					return group(r.expr(x.Args[0]), []string{rep}, r.expr(x.Args[1]))
 				case len(x.Args) == 1:
-					return append([]string{rep}, r.expr(x.Args[0])...)
+					return group([]string{rep}, r.expr(x.Args[0]))
 				}
 				r.bad(x, "symbol operator %s with %d arguments", name, len(x.Args))
 			}
 			// alphanumeric built-in: Name args
-			return append([]string{op}, join(r.exprs(x.Args), ",")...)
+			return callForm(op, r.exprs(x.Args))
 		}
 	default:
 		// operator defined in the generated package: Op(iface, args...)
 		if f.Pkg() != nil && recv == "" && len(x.Args) >= 1 {
 			if n, ok := r.info.TypeOf(x.Args[0]).(*types.Named); ok && n.Obj().Name() == "ArchetypeInterface" {
-				out := []string{lowerFirst(stripDigits(f.Name()))}
-				return append(out, join(r.exprs(x.Args[1:]), ",")...)
+				return callForm(lowerFirst(stripDigits(f.Name())), r.exprs(x.Args[1:]))
 			}
 		}
 	}
